@@ -381,7 +381,94 @@ fn first_diff(a: &[Ev], b: &[Ev]) -> String {
     format!("sequences agree on the first {i} events; expected {} events (next {:?}), got {} (next {:?})", a.len(), a.get(i).map(|e| e.0), b.len(), b.get(i).map(|e| e.0))
 }
 
+/// turn one table / array of tables somewhere below the root into a value, in place
+fn convert_somewhere(doc: &mut DocumentMut, rng: &mut Rng) -> Option<&'static str> {
+    fn collect(t: &Table, here: &mut Vec<String>, out: &mut Vec<Vec<String>>) {
+        for (k, v) in t.iter() {
+            here.push(k.to_string());
+            match v {
+                Item::Table(c) => {
+                    out.push(here.clone());
+                    collect(c, here, out);
+                }
+                Item::ArrayOfTables(_) => out.push(here.clone()),
+                _ => {}
+            }
+            here.pop();
+        }
+    }
+    let mut paths = Vec::new();
+    collect(doc.as_table(), &mut Vec::new(), &mut paths);
+    if paths.is_empty() {
+        return None;
+    }
+    let path = paths[rng.below(paths.len())].clone();
+    let mut cur: &mut Item = doc.as_item_mut();
+    for k in &path {
+        cur = cur.get_mut(k.as_str())?;
+    }
+    let is_table = cur.is_table();
+    match rng.below(3) {
+        0 => {
+            cur.make_value();
+            Some(if is_table { "Item::make_value(table)" } else { "Item::make_value(array of tables)" })
+        }
+        1 => {
+            let taken = std::mem::take(cur);
+            *cur = match taken {
+                Item::Table(t) => Item::Value(Value::InlineTable(t.into_inline_table())),
+                Item::ArrayOfTables(a) => Item::Value(Value::Array(a.into_array())),
+                other => other,
+            };
+            Some(if is_table { "Table::into_inline_table" } else { "ArrayOfTables::into_array" })
+        }
+        _ => {
+            let taken = std::mem::take(cur);
+            *cur = match taken.into_value() {
+                Ok(v) => Item::Value(v),
+                Err(back) => back,
+            };
+            Some(if is_table { "Item::into_value(table)" } else { "Item::into_value(array of tables)" })
+        }
+    }
+}
+
 impl C20 {
+    /// the data the read-only visitor is shown == the data the document prints
+    fn visible_is_printed(&mut self, ctx: &mut Ctx, doc: &DocumentMut, how: &str) -> bool {
+        let r = guarded(|| {
+            let mut b = Build::default();
+            b.visit_document(doc);
+            (b.result, b.orphans, doc.to_string())
+        });
+        match r {
+            Err((loc, msg)) => {
+                ctx.violation(&format!("panic:{}", crate::short_loc(&loc)), format!("visiting / printing after {how} panicked at {loc}: {msg}"));
+                false
+            }
+            Ok((Some(tree), 0, printed)) => {
+                let d = refmodel::decode::decode(&printed);
+                if d.verdict != refmodel::decode::Verdict::Valid {
+                    // what the conversion printed is C06's and C08's business
+                    ctx.count("converted-first/print-not-judged");
+                    return true;
+                }
+                ctx.count("visible-is-printed-checks");
+                let ok = [d.tree.as_ref(), d.tree_nl.as_ref()].into_iter().flatten().any(|t| t.diff(&tree, KeyOrder::Any).is_none());
+                if !ok {
+                    let diff = d.tree.as_ref().unwrap().diff(&tree, KeyOrder::Any).unwrap_or_default();
+                    ctx.violation("visited-data-differs-from-print", format!("after {how}: the visitor is shown data the document does not print (or the reverse): {diff}; printed {printed:?}"));
+                    return false;
+                }
+                true
+            }
+            Ok((t, orphans, _)) => {
+                ctx.violation("visit-callbacks-out-of-structure", format!("after {how}: a value callback arrived outside any key/value pair ({orphans} times) or no table was visited (root seen: {})", t.is_some()));
+                false
+            }
+        }
+    }
+
     fn judge(&mut self, ctx: &mut Ctx, mut doc: DocumentMut, rng: &mut Rng, source: Option<&str>) {
         if let Some(text) = source {
             // document order: the data the visitor meets, in the order it meets it, against R
@@ -550,10 +637,34 @@ impl Check for C20 {
                 return;
             }
         };
-        let source: Option<String> = match workload {
+        let mut doc = doc;
+        let mut source: Option<String> = match workload {
             "corpus" | "render" => ctx.cur_input.clone(),
             _ => None,
         };
+        // one document in four is edited first: some table or array of tables is turned into a value
+        // in place. What the visitors are shown afterwards must be what the document prints.
+        if workload != "corpus" && rng.chance(1, 4) {
+            match guarded(|| {
+                let how = convert_somewhere(&mut doc, rng);
+                (how, doc)
+            }) {
+                Ok((how, d)) => {
+                    doc = d;
+                    if let Some(how) = how {
+                        ctx.count(&format!("converted-first/{how}"));
+                        source = None;
+                        if !self.visible_is_printed(ctx, &doc, how) {
+                            return;
+                        }
+                    }
+                }
+                Err((loc, msg)) => {
+                    ctx.violation(&format!("panic:{}", crate::short_loc(&loc)), format!("converting a table in place panicked at {loc}: {msg}"));
+                    return;
+                }
+            }
+        }
         self.judge(ctx, doc, rng, source.as_deref());
     }
 }
